@@ -22,6 +22,12 @@ def histories(rng, n, max_ops, hostile, deep=0):
             out.append((t, ops + h.deep_chain(140 + 10 * k) + ["ce:z", "ap:h1:h%d" % (len(h.shadow))]))
         else:
             out.append((t, ops + h.deep_chain_up(125 + 5 * k)))
+    if deep:
+        lim = lib.XML_CONSTS.get("MAX_ELEMENT_DEPTH") or 128
+        for delta in (0, 1):
+            h = D.Hist(rng, max_ops=2, hostile=0.0)
+            t, ops = h.history()
+            out.append((t, ops + h.deep_move(lim + delta)))
     return out
 
 
